@@ -8,7 +8,7 @@
    (identifier, payload) pairs. *)
 From Coq Require Import NArith ZArith List Bool Lia Permutation.
 From NGS Require Import Val Ints Morton ShardBytes MiniShard ShardFile ShardReader ShardSpecReader
-  ShardCanon MiniShardProofs ShardReaderProofs ShardWitness ShardWitnessProofs.
+  ShardCanon MiniShardProofs ShardFileProofs ShardReaderProofs ShardWitness ShardWitnessProofs.
 Import ListNotations.
 Open Scope N_scope.
 
@@ -123,8 +123,59 @@ Theorem C05_impl_reads_instances :
 Proof. split; [exact (proj2 wit_other_chunks) | exact (proj1 (proj2 (proj2 (proj2 (proj2 guard_example)))))]. Qed.
 Print Assumptions C05_impl_reads_instances.
 
-(* whole-dataset order independence, instance: all 24 chunks of the 3x4x2
-   dataset stored in increasing and in decreasing order give identical files *)
+(* (2) order_independent, file level, for EVERY grid / parameter triple with
+   p + s + m < 2^64, every set of distinct identifiers (< 2^64, rank + 1 < 2^64)
+   and every pair of store orders: no store raises under either order and
+   ShardedScale.close produces the same list of (file name, result of
+   Shard.close) — byte-identical files.  The encoders are arbitrary functions
+   (raw or the gzip oracle).  ops are (identifier, payload) pairs as seen by
+   ShardedScale.store_cmc_chunk. *)
+Theorem C05_order_independent : forall sp enc ienc, cbits sp < 2 ^ 64 ->
+  forall ops1 ops2, ops_valid sp ops1 -> Permutation ops1 ops2 ->
+  snd (run_cmc_stores sp enc [] ops1) = map (fun _ => Ok tt) ops1 /\
+  snd (run_cmc_stores sp enc [] ops2) = map (fun _ => Ok tt) ops2 /\
+  scale_close sp ienc (fst (run_cmc_stores sp enc [] ops1)) =
+  scale_close sp ienc (fst (run_cmc_stores sp enc [] ops2)).
+Proof. exact order_independent. Qed.
+Print Assumptions C05_order_independent.
+
+(* the same through ShardedFileAccessor.store_chunk (chunk origins resolved by
+   get_cmc): a whole writing session *)
+Theorem C05_session_order_independent : forall sp enc ienc v ops1 ops2 cms1 cms2,
+  cbits sp < 2 ^ 64 ->
+  Forall2 (resolves v) ops1 cms1 -> Forall2 (resolves v) ops2 cms2 ->
+  ops_valid sp cms1 -> Permutation cms1 cms2 ->
+  fst (run_session sp enc ienc v ops1) = map (fun _ => Ok tt) ops1 /\
+  fst (run_session sp enc ienc v ops2) = map (fun _ => Ok tt) ops2 /\
+  snd (run_session sp enc ienc v ops1) = snd (run_session sp enc ienc v ops2).
+Proof. exact session_order_independent. Qed.
+Print Assumptions C05_session_order_independent.
+
+(* every reachable minishard object is the result of the stores routed to it,
+   whatever happened to the other minishards (valid for ALL store sequences,
+   including ones with rejected stores) *)
+Theorem C05_routing_decomposition : forall sp enc ops st sk mk,
+  get2 (fst (run_cmc_stores sp enc st ops)) sk mk =
+  after sp enc (get2 st sk mk) (routed sp sk mk ops).
+Proof. intros sp enc ops st sk mk. exact (proj1 (run_step sp enc ops st) sk mk). Qed.
+Print Assumptions C05_routing_decomposition.
+
+(* non-vacuity + instance: all 24 chunks of the 3x4x2 dataset stored in
+   increasing and in decreasing order give identical files (in-kernel run) *)
 Theorem C05_order_instance : snd wit_session = snd wit_session_rev.
 Proof. exact wit_order_instance. Qed.
 Print Assumptions C05_order_instance.
+
+Example C05_ops_valid_inhabited :
+  ops_valid {| sp_m := 2; sp_s := 2; sp_p := 0 |} [(10, [9; 9; 9]); (8, [2; 2; 2]); (26, [])].
+Proof.
+  split.
+  - repeat constructor; simpl; intuition discriminate.
+  - intros id [<-|[<-|[<-|[]]]]; vm_compute; split; reflexivity.
+Qed.
+
+(* Strategy independence ("in memory" vs "on disk" buffers) is NOT a theorem:
+   both strategies are the same abstract map / byte sequence in the model; that
+   the real OnDiskBytesDict / OnDiskByteArray behave like dict / bytearray is
+   checked by the correspondence run (harness/props/c05.py compares the files
+   written under both strategies byte for byte with each other and the model). *)
